@@ -19,6 +19,7 @@ of the pipeline does with the resulting group.
 -/
 import DrandProofs.C07Net
 import DrandProofs.C07Chain
+import DrandProofs.C07Repaired
 import Drand.Beacon.Transition
 import DrandProofs.C17
 import DrandProofs.Lemmas.Pedersen
